@@ -8,7 +8,8 @@ Definition astep' := astep KS EHASH MAXF P_PEERS_PER_DOC_CACHE_SIZE P_MAX_SET_SI
 Record case := mkCase {
   c_prop : N;                                       (* 14 or 12 *)
   c_hist : list (aop * ares * deliveries);
-  c_final : list (N * list entry) }.                (* store handed back by shutdown: content per document *)
+  c_final : list (N * list entry);                  (* store handed back by shutdown: content per document *)
+  c_inflight_answered : bool }.                     (* a request in flight when shutdown is requested gets an answer (not: waits forever) *)
 
 Definition aerr_eqb (a b : aerr) : bool :=
   match a, b with
@@ -183,6 +184,6 @@ Definition final_eqb (a b : N * list entry) : bool := (fst a =? fst b) && list_e
 Definition check (c : case) : N :=
   let '(bad, s) := run_actor (ainit empty_tables) (c_hist c) 1 in
   let m1 := (bad =? 0) && forallb (fun p => list_eqb entry_eqb (fs_all (fst p) (a_tables s)) (snd p)) (c_final c) in
-  let m2 := if c_prop c =? 14 then scan14 (mkT14 [] []) (c_hist c) && shutdown_ok c
+  let m2 := if c_prop c =? 14 then scan14 (mkT14 [] []) (c_hist c) && shutdown_ok c && c_inflight_answered c
             else scan12 (mkT12 [] [] [] (mkT14 [] [])) (c_hist c) in
   bit (negb m1) 1 + bit (negb m2) 2.
